@@ -34,13 +34,15 @@ class Sched:
         self.granted = [False] * n
         self.blocked = [False] * n        # last turn was a failed lock acquisition
         self.tids: dict[int, int] = {}    # thread ident -> session id
-        self.trace: list[int] = []
+        self.pending = ["x"] * n          # what the parked session will do when granted (tag, see Fs/Drv/Sched.lean)
+        self.trace: list[str] = []        # "<session>:<tag>" per grant
 
     def me(self):
         return self.tids.get(threading.get_ident())
 
-    def park(self, i: int) -> None:
+    def park(self, i: int, tag: str) -> None:
         with self.cv:
+            self.pending[i] = tag
             self.state[i] = "parked"
             self.cv.notify_all()
             if not self.cv.wait_for(lambda: self.granted[i], timeout=TURN_TIMEOUT * 10):
@@ -60,10 +62,11 @@ class Sched:
 
     def grant(self, i: int) -> None:
         """one turn for session i (a stutter when it has finished)"""
-        self.trace.append(i)
         with self.cv:
             if self.state[i] == "done":
+                self.trace.append(f"{i}:x")
                 return
+            self.trace.append(f"{i}:{self.pending[i]}")
             self.blocked[i] = False
             self.granted[i] = True
             self.cv.notify_all()
@@ -78,8 +81,9 @@ class _DuckProxy:
     def execute(self, sql, *a, **k):
         s = self._sched
         i = s.me()
-        if i is not None and is_yield(str(sql)):
-            s.park(i)
+        tag = tag_of(str(sql)) if i is not None else None
+        if tag is not None:
+            s.park(i, tag)
         self._inner.execute(sql, *a, **k)
         return self
 
@@ -103,7 +107,7 @@ class _LockProxy:
             return self._inner.acquire(blocking, timeout)
         self._used.append(i)
         while True:
-            s.park(i)
+            s.park(i, "L+")
             if self._inner.acquire(False):
                 return True
             s.blocked[i] = True
@@ -112,7 +116,7 @@ class _LockProxy:
         s = self._sched
         i = s.me()
         if i is not None:
-            s.park(i)
+            s.park(i, "L-")
         self._inner.release()
 
     def __enter__(self):
@@ -126,24 +130,38 @@ class _LockProxy:
         return self._inner.locked()
 
 
-def is_yield(sql: str) -> bool:
-    """engine calls that are scheduling points of the model (everything else is glued to the preceding one)"""
+def tag_of(sql: str) -> str | None:
+    """WHAT an engine call is, for the calls that are scheduling points (None = glued to the preceding call: status
+    SELECTs, SET, CREATE MACRO, MERGE's temp table / bogus comment / COUNT, anything read-only the model does not know).
+    The tag, not the position of the call within its statement, identifies the scheduling point, so read-only calls
+    can be added to or removed from fakesnow without shifting the correspondence."""
     u = " ".join(sql.split()).upper()
-    if u.startswith("SELECT * FROM INFORMATION_SCHEMA.SCHEMATA"):
-        return True                                            # connect's existence probes
+    if u.startswith("SELECT") and "INFORMATION_SCHEMA.SCHEMATA" in u and "C19PROBE" not in u:
+        return "ps" if "SCHEMA_NAME" in u else "pd"          # connect's existence checks
+    if u.startswith("SELECT") and "C19PROBE" in u:
+        return "om" if "INFORMATION_SCHEMA" in u else "or"   # the harness's own metadata / row reads
+    if u.startswith(("SELECT", "WITH", "SET ", "DESCRIBE", "SHOW", "CREATE MACRO", "CREATE OR REPLACE TEMPORARY TABLE",
+                     "BEGIN", "COMMIT", "ROLLBACK")):
+        return None
     if u.startswith("ATTACH"):
-        return True
+        return "wa"
     if u.startswith("CREATE TABLE IF NOT EXISTS") and "_FS_TABLES_EXT" in u:
-        return True                                            # info_schema.creation_sql
-    if u.startswith(("CREATE MACRO", "SET ", "CREATE OR REPLACE TEMPORARY TABLE", "BEGIN", "COMMIT", "ROLLBACK")):
-        return False
-    if "MERGE_CANDIDATES" in u and "_FS_TABLES_EXT" in u:
-        return False                                           # MERGE's bogus comment bookkeeping
-    if u.startswith(("CREATE SCHEMA", "CREATE TABLE", "INSERT INTO", "UPDATE ", "DELETE ")):
-        return True
-    if u.startswith("SELECT") and ("C19PROBE" in u):
-        return True                                            # the harness's own row / metadata reads
-    return False
+        return "wi"                                           # info_schema.creation_sql
+    if u.startswith("CREATE SCHEMA"):
+        return "ws"
+    if u.startswith("CREATE TABLE") or u.startswith("CREATE OR REPLACE TABLE"):
+        return "wt"
+    if u.startswith("INSERT INTO") and "_FS_TABLES_EXT" in u:
+        return None if "MERGE_CANDIDATES" in u else "wc"
+    if u.startswith("INSERT INTO") and "_FS_COLUMNS_EXT" in u:
+        return None
+    if u.startswith("INSERT INTO"):
+        return "wn"
+    if u.startswith("UPDATE "):
+        return "wu"
+    if u.startswith("DELETE "):
+        return "wd"
+    return None
 
 
 # ------------------------------------------------------------------------------------------------
@@ -492,13 +510,13 @@ def _line(job, trace, locked=True) -> str:
 def _check(chk, job, real, rep) -> None:
     if "impl" not in rep:
         raise common.Infra(f"driver: {rep}")
-    case = {"name": job["name"], "init": job["init"], "progs": job["progs"], "tables": job["tables"], "sched": real["trace"]}
-    chk.case((job["name"], tuple(real["trace"])), nontrivial=len(set(real["trace"])) > 1,
+    case = {"name": job["name"], "init": job["init"], "progs": job["progs"], "tables": job["tables"], "sched": job["sched"], "trace": real["trace"]}
+    chk.case((job["name"], tuple(real["trace"])), nontrivial=len({t.split(":")[0] for t in real["trace"]}) > 1,
              sample=case if chk.evaluations % 61 == 3 else None)
     chk.count("scenario:" + job["name"])
-    steps_differ = rep.get("padded") == "1"
-    if rep.get("done") != "1":
-        raise common.Infra(f"model did not finish even under the padded schedule of {job['name']}")
+    # the model did not get through its programs on the code's trace: the code no longer makes a *write* / lock step the
+    # model has (read-only differences are absorbed by the alignment)
+    steps_differ = rep.get("done") != "1"
     robs = real["outs"] + "#" + real["final"]
     mobs = rep["impl"] + "#" + rep["final"]
     serial = rep.get("serial", "").split("~") if rep.get("serial") else []
@@ -507,8 +525,8 @@ def _check(chk, job, real, rep) -> None:
     if robs == mobs:
         if rep["ok"] == "1":
             if steps_differ:
-                chk.violation(f"{desc}: the code took its turns differently from the model (the model needed more turns than the "
-                              f"effective schedule {real['trace']}); no observable difference on this schedule", case,
+                chk.violation(f"{desc}: the code's durable/lock steps differ from the model's (the model is not finished after the "
+                              f"code's trace {real['trace']}); no observable difference on this schedule", case,
                               broken="Fs.Sched.turn (correspondence of scheduling points)", failing_input=False)
             return
         chk.count("not-serializable")
@@ -530,15 +548,6 @@ def run(chk) -> None:
     reals = common.shard_map(_worker, shards)
     for shard, rs in zip(shards, reals):
         reps = common.batch([_line(j, r["trace"], r["locked"]) for j, r in zip(shard, rs)])
-        # the model needs more turns than the code took (the code's steps differ from the model's): let the model finish
-        # round-robin and compare the outcomes anyway
-        redo = [i for i, rep in enumerate(reps) if rep.get("done") != "1"]
-        if redo:
-            n_of = lambda j: len(j["progs"])  # noqa: E731
-            reps2 = common.batch([_line(shard[i], rs[i]["trace"] + list(range(n_of(shard[i]))) * 40, rs[i]["locked"]) for i in redo])
-            for i, rep2 in zip(redo, reps2):
-                rep2["padded"] = "1"
-                reps[i] = rep2
         for j, r, rep in zip(shard, rs, reps):
             _check(chk, j, r, rep)
     # free-running stress: supporting evidence; on failure the seed is reported (not replayable deterministically)
@@ -575,7 +584,4 @@ def replay(chk, case) -> None:
     job = {"name": case["name"], "init": case["init"], "progs": case["progs"], "tables": case["tables"], "sched": case["sched"]}
     real = _worker([job])[0]
     rep = common.batch([_line(job, real["trace"], real["locked"])])[0]
-    if rep.get("done") != "1":
-        rep = common.batch([_line(job, real["trace"] + list(range(len(job["progs"]))) * 40, real["locked"])])[0]
-        rep["padded"] = "1"
     _check(chk, job, real, rep)
